@@ -1,4 +1,5 @@
 import TucanProofs.Lemmas.Permute
+import TucanProofs.Lemmas.EdgeCount
 import TucanProofs.Examples
 /-!
 # C16 — the permutation helper returns a faithful relabelled copy
@@ -25,6 +26,24 @@ theorem C16_edges_differ (g : Graph) (shuffles : List (List Nat)) (r : Graph)
     (henf : (g.numberOfEdges > 1 && 2 * g.numberOfEdges != g.numberOfNodes * (g.numberOfNodes - 1)) = true)
     (h : permuteMolecule g shuffles = .ok r) : sameEdgeSet g r = false :=
   permuteMolecule_enforced g shuffles r henf h
+
+/-- **The retry loop can exit.**  A molecule that has a bond and is not a complete graph always has two atoms
+whose exchange changes the edge set, so a relabelling with a different edge set exists (that the loop finds
+one is almost-sure and depends on the random generator; it is not a theorem). -/
+theorem C16_a_changing_relabelling_exists (g : Graph) (gw : g.WF) (gs : g.Simple)
+    (hbond : ∃ a b, g.Adj a b)
+    (hnon : ∃ a ∈ g.labels, ∃ b ∈ g.labels, a ≠ b ∧ ¬ g.Adj a b) :
+    ∃ x ∈ g.labels, ∃ y ∈ g.labels, x ≠ y ∧
+      ¬ (∀ a b, g.Adj a b ↔ g.Adj (if a = x then y else if a = y then x else a)
+                                   (if b = x then y else if b = y then x else b)) :=
+  exists_transposition_changing_edges g gw gs hbond hnon
+
+/-- the result has as many atoms and as many bonds as the argument -/
+theorem C16_same_counts (g : Graph) (hw : g.WF) (hs : g.Simple) (shuffles : List (List Nat))
+    (hall : ∀ s ∈ shuffles, s.Perm g.labels) (r : Graph) (h : permuteMolecule g shuffles = .ok r) :
+    r.numberOfNodes = g.numberOfNodes ∧ r.numberOfEdges = g.numberOfEdges := by
+  obtain ⟨π, rel, hl, rw', rs⟩ := C16_faithful g hw hs shuffles hall r h
+  exact ⟨rel.toIso.numberOfNodes, rel.toIso.numberOfEdges hw hs rw' rs⟩
 
 /-- the label set is unchanged -/
 theorem C16_same_label_set (g : Graph) (hw : g.WF) (hs : g.Simple) (shuffles : List (List Nat))
